@@ -102,7 +102,12 @@ def correspondence(ctx):
                  "longer (earlier draft) and shorter file and verifies with the result; a third of the chains use artifact names, strip "
                  "prefix, exclude pattern and match-products path with commas, spaces, '=', leading '-', double quote and non-ASCII "
                  "(decoy files named like the comma-separated pieces exist), and every link's materials/products are compared with the "
-                 "names the history demands. Directory shapes: the working directory of run/record, the metadata directory (-d, relative, absolute, "
+                 "names and sha256 digests the history demands (computed by the harness itself, with its own line-end normalisation). Always "
+                 "included: two chains whose step prints more than 1 MiB (seq 1 200000; legacy and DSSE) and one recording 9000 small "
+                 "products, so that the link file exceeds 1 MiB; chains with --normalize-line-endings (files with CRLF and lone CR) and "
+                 "--follow-symlink-dirs (a symlinked directory in the recorded tree) on every command with run and record start/stop mixed. "
+                 "verify is also invoked with an additional / only missing key path, a directory as key path (all must end non-zero) and a "
+                 "key file whose name contains [ ] * (must load literally). Directory shapes: the working directory of run/record, the metadata directory (-d, relative, absolute, "
                  "trailing slash), verify's working directory, link directory and layout file name are drawn from names with %, %s, %d, %2F, [1], "
                  "*, ?, backslash, spaces, {x} and non-ASCII; in a quarter of the chains verify's working directory is entered through a "
                  "symlink (PWD = symlink path) so that a relative ../links differs between the kernel's and a lexical reading; CLI and library "
